@@ -505,6 +505,13 @@ func downloadImpl(ctx context.Context, name, sha3_384, downloadURL string, user 
 			if _, err := w.Seek(0, io.SeekStart); err != nil {
 				return err
 			}
+			// drop what earlier attempts wrote, the new answer may be
+			// shorter than what is there already
+			if tr, ok := w.(interface{ Truncate(int64) error }); ok {
+				if err := tr.Truncate(0); err != nil {
+					return err
+				}
+			}
 			h = crypto.SHA3_384.New()
 			resume = 0
 		}
